@@ -352,14 +352,18 @@ func (this *partition) updateValue(notificationId uuid.UUID, id uuid.UUID, value
 		this.notificator.Notify(notificationId, err, false)
 		return nil
 	}
-	if err := this.index.Remove(id); err != nil {
-		this.notificator.Notify(notificationId, err, false)
-		return nil
-	}
 	for k, v := range vertex.Metadata() {
 		if _, exists := metadata[k]; !exists {
 			metadata[k] = v
 		}
+	}
+	if err := metadata.Validate(); err != nil {
+		this.notificator.Notify(notificationId, err, false)
+		return nil
+	}
+	if err := this.index.Remove(id); err != nil {
+		this.notificator.Notify(notificationId, err, false)
+		return nil
 	}
 	err = this.index.Insert(id, value, metadata, vertex.Level())
 	this.notificator.Notify(notificationId, err, false)
@@ -399,15 +403,19 @@ func (this *partition) batchUpdateValue(notificationId uuid.UUID, items []*pb.Ba
 			errors[id] = err
 			continue
 		}
-		if err := this.index.Remove(id); err != nil {
-			errors[id] = err
-			continue
-		}
-		metadata := item.GetMetadata()
+		metadata := index.Metadata(item.GetMetadata())
 		for k, v := range vertex.Metadata() {
 			if _, exists := metadata[k]; !exists {
 				metadata[k] = v
 			}
+		}
+		if err := metadata.Validate(); err != nil {
+			errors[id] = err
+			continue
+		}
+		if err := this.index.Remove(id); err != nil {
+			errors[id] = err
+			continue
 		}
 		if err := this.index.Insert(id, item.GetValue(), metadata, vertex.Level()); err != nil {
 			errors[id] = err
